@@ -292,3 +292,34 @@ Definition not_u64 (t : ity) : bool := sg t || (bits t <? 64).
 (* the row count of an index pointer fits its dtype (what uncompress_dimension relies on) *)
 Definition uncompress_clause (t : ity) (indptr : list Z) : bool :=
   fits (DInt t) (Z.of_nat (length indptr) - 1).
+
+(* ---------------------------------------------------------------- COO.__init__ canonicalisation
+   (sorted=False, has_duplicates=True): _sort_indices then _sum_duplicates.  Both decide on np.diff of
+   linear_loc()'s result, whose dtype is the generated s_linear_loc_dtype (intp for every stored dtype).
+   ps: (linear position, data) per given element; result: the stored elements in canonical order. *)
+Definition lin_arr (d : dty) (ndim : Z) (lin : list Z) : tarr := mkT (s_linear_loc_dtype d ndim) lin.
+Definition m_sorted_test (d : dty) (ndim : Z) (lin : list Z) : bool := s_already_sorted (lin_arr d ndim lin).
+Definition m_dup_mask (d : dty) (ndim : Z) (lin : list Z) : list bool := s_dup_mask (lin_arr d ndim lin).
+
+(* np.argsort(kind="mergesort"): stable *)
+Fixpoint insert_stable (p : Z * Z) (l : list (Z * Z)) : list (Z * Z) :=
+  match l with
+  | [] => [p]
+  | q :: r => if fst q <=? fst p then q :: insert_stable p r else p :: q :: r
+  end.
+Definition stable_sort (l : list (Z * Z)) : list (Z * Z) := fold_left (fun acc p => insert_stable p acc) l [].
+
+(* np.add.reduceat over the groups that start where the mask says "differs from the previous one" *)
+Fixpoint dedup (cur : option (Z * Z)) (ps : list (Z * Z)) (starts : list bool) : list (Z * Z) :=
+  match ps, starts with
+  | p :: r, s :: sr =>
+      match cur with
+      | None => dedup (Some p) r sr
+      | Some c => if s then c :: dedup (Some p) r sr else dedup (Some (fst c, snd c + snd p)) r sr
+      end
+  | _, _ => match cur with Some c => [c] | None => [] end
+  end.
+
+Definition m_canon (d : dty) (ndim : Z) (ps : list (Z * Z)) : list (Z * Z) :=
+  let s1 := if m_sorted_test d ndim (map fst ps) then ps else stable_sort ps in
+  dedup None s1 (true :: m_dup_mask d ndim (map fst s1)).
